@@ -17,6 +17,7 @@ LASTS = [0, 2, 10, 1, 9, 12][: P.get("lasts", 6)]
 BASE = P.get("base")
 VIASTR = P.get("viastr")
 MAXSTEPS = P.get("maxsteps", 4)
+BASEKIND = P.get("basekind", 0)
 
 
 def rel_text(steps: int, off: int, suffix: Any) -> str:
@@ -42,6 +43,10 @@ def apply_relative(b: int, last: int, steps: int, oi: int, si: int, viastr: bool
     suffix = pick(SUFFIXES, si)
     text = rel_text(steps, off, suffix)
     base = JSONPointer(O.spell(base_tokens), unicode_escape=UE)
+    if BASEKIND == 1:  # the same base, built from a token list (index-like tokens stay strings)
+        base = JSONPointer.from_parts(base_tokens, unicode_escape=False)
+    elif BASEKIND == 2 and base_tokens:  # ... or reached through an earlier relative step
+        base = JSONPointer(O.spell(base_tokens + ["zz"]), unicode_escape=UE).to("1")
     try:
         rel = RelativeJSONPointer(text, unicode_escape=UE)
     except (RelativeJSONPointerError, JSONPointerError) as e:
